@@ -45,6 +45,9 @@ CLAIMS = {
  "C06": dict(level="proof", ref="DESIGN.md 5 C06",
    text="PARTIAL. Coq theorems for the two completion rules: a lookup is done once none of its requests is in flight, which holds at the latest one request timeout after its last request and immediately for answered requests; the store phase of a put yields its outcome once what is outstanding has expired; a put that could send nothing fails at once. Whole calls (exactly one outcome, nothing left behind) under loss, duplication, overlap and clock jumps are checked on workloads of a real node.",
    note="No node-level transition model: the composition of the loop body is exercised, not proved. Real-time hangs inside flume/OS are outside the reach of the check; the timeout bound is the request timeout in force, which adapts to late replies."),
+ "C07": dict(level="proof", ref="DESIGN.md 5 C07",
+   text="Coq theorems over the per-iteration transition of a lookup: after every iteration each of the 20 closest candidates among the seeds and all nodes listed in the answers received has been queried; requests only go to unvisited addresses and the visited set never shrinks; the candidate list stays strictly sorted (secure first, XOR) through every response; candidates come only from seeds and answers. Tied to the code in lock-step: the candidate list, responder list and visited set of a real lookup are compared with the model after every loop iteration, over scripted networks with multi-hop 'knows' relations and never-answering phantom nodes on public/private IPs.",
+   note="Trusted: Coq kernel; state read through a cfg-guarded accessor; all answering peers are on loopback (exempt from BEP42), secure/insecure mixing enters through listed phantom nodes only. Loss-free delivery is how the scripted network behaves; the theorems do not need it."),
 }
 
 TECH = "Coq proof over hand-written Gallina model + differential correspondence (vm_compute) against the Rust implementation"
